@@ -6,6 +6,7 @@ CONSTANTS
   Verbs = {"worker", "workerBad", "query", "load", "stopHard", "stopSoft"}
   T = 1
   Parts = 1
+  FileCodes = {1}
   MaxDup = 1
   MaxProc = 0
   MaxQueue = 2
